@@ -20,15 +20,37 @@ type Source struct {
 	FaultAt int64
 	Fired   bool
 	half    int
+	// FaultCall >= 0: the FaultCall-th call on the source (Read or Seek, counted from 0) fails with ErrInjected, and
+	// every later call too when FaultPermanent is set; Calls counts the calls made
+	FaultCall      int
+	FaultPermanent bool
+	Calls          int
+	FiredOnSeek    bool
+}
+
+func (s *Source) callFault(seek bool) bool {
+	i := s.Calls
+	s.Calls++
+	if s.FaultCall >= 0 && (i == s.FaultCall || (s.FaultPermanent && i > s.FaultCall)) {
+		if !s.Fired {
+			s.FiredOnSeek = seek
+		}
+		s.Fired = true
+		return true
+	}
+	return false
 }
 
 func NewSource(b []byte, policy string, seed int64, faultAt int64) *Source {
-	return &Source{B: b, Policy: policy, R: rand.New(rand.NewSource(seed)), FaultAt: faultAt, half: 1 << 16}
+	return &Source{B: b, Policy: policy, R: rand.New(rand.NewSource(seed)), FaultAt: faultAt, half: 1 << 16, FaultCall: -1}
 }
 
 func (s *Source) Read(p []byte) (int, error) {
 	if len(p) == 0 {
 		return 0, nil
+	}
+	if s.callFault(false) {
+		return 0, ErrInjected
 	}
 	if s.Pos >= int64(len(s.B)) {
 		if s.FaultAt == int64(len(s.B)) { // the source fails where end-of-file belongs
@@ -76,6 +98,9 @@ func (s *Source) Read(p []byte) (int, error) {
 }
 
 func (s *Source) Seek(off int64, whence int) (int64, error) {
+	if s.callFault(true) {
+		return 0, ErrInjected
+	}
 	var np int64
 	switch whence {
 	case io.SeekStart:
